@@ -29,6 +29,10 @@ type C04Case struct {
 	// points are enumerated from after it): the late writer's version is then a sibling of the
 	// victim's lineage, and the victim's dying commit leaves parent, child and that sibling listed
 	Warm *Stmt `json:"warm,omitempty"`
+	// CreateInTxn (victim txn, no late writer): the victim opens its table INSIDE the
+	// transaction (BEGIN; CREATE VIRTUAL TABLE; statements; COMMIT): SQLite calls no begin
+	// callback for such a table, its sync/commit callbacks run all the same
+	CreateInTxn bool `json:"create_in_txn,omitempty"`
 }
 
 func genC04Case(t *rapid.T) C04Case {
@@ -63,6 +67,9 @@ func genC04Case(t *rapid.T) C04Case {
 			w.T = int64(45 * 256)
 			c.Warm = &w
 		}
+	}
+	if c.Victim == "txn" && c.Late == nil {
+		c.CreateInTxn = rapid.IntRange(0, 2).Draw(t, "createintxn") == 0
 	}
 	return c
 }
@@ -139,6 +146,12 @@ func runVictimAfterOpen(c C04Case, st *fakes3.Store, b string, spec TableSpec, v
 		arm() // the victim's open (and the merge it may commit) is part of the enumeration
 	}
 	after = view.Clone()
+	createdInTxn := c.CreateInTxn && c.Victim == "txn" && !warm && c.Late == nil
+	if createdInTxn {
+		if err := conn.Exec("begin"); err != nil {
+			return false, view, err
+		}
+	}
 	if err := conn.Create(sp); err != nil {
 		return false, after, err
 	}
@@ -177,7 +190,7 @@ func runVictimAfterOpen(c C04Case, st *fakes3.Store, b string, spec TableSpec, v
 		return true, after, nil
 	case "txn", "auto":
 		explicit := c.Victim == "txn"
-		if explicit {
+		if explicit && !createdInTxn {
 			if err := conn.Exec("begin"); err != nil {
 				return false, view, err
 			}
@@ -267,6 +280,9 @@ func runC04(c C04Case, o *Obs) error {
 		}
 	}
 	o.Class("victim-" + c.Victim)
+	if c.CreateInTxn && c.Victim == "txn" && c.Late == nil {
+		o.Class("victim-creates-its-table-inside-the-transaction")
+	}
 	if frontier >= 2 {
 		o.Class("victim-merges-on-open")
 	}
